@@ -20,6 +20,7 @@ Inductive pcond :=
 | CValid (f : string)                          (* x.f.IsValid() / x.f != token.NoPos / x.f != 0 *)
 | CFlag (f : string)                           (* x.f  (bool field) *)
 | CImplicit                                    (* x.Implicit()  (Ident: Obj != nil && Obj.Kind >= implicitBase) *)
+| CTrue
 | CLenOne (f : string)                         (* len(x.f) == 1   (only in the layout templates) *)
 | CNot (c : pcond)
 | COr (a b : pcond)
